@@ -508,12 +508,18 @@ func (e *Env) evalCall(x *Expr) (SV, error) {
 		return e.withState(e.old).Eval(x.Args[0])
 	case "ret":
 		// ret(Callee, n, i): i-th result of the n-th call of Callee executed so far in the verified function
-		if len(x.Args) != 3 || x.Args[0].Kind != "id" || x.Args[1].Kind != "int" || x.Args[2].Kind != "int" || e.callRet == nil {
+		// Callee is a bare name (`BalanceOf`), or - when two callees share the method name - a qualified suffix of the
+		// callee's short name written as a selector or a string (`Keeper.OnRecvPacket`, "types.IBCModule.OnRecvPacket")
+		callee, cok := "", false
+		if len(x.Args) == 3 {
+			callee, cok = retCalleeName(x.Args[0])
+		}
+		if len(x.Args) != 3 || !cok || x.Args[1].Kind != "int" || x.Args[2].Kind != "int" || e.callRet == nil {
 			return SV{}, serr("ret(Callee, n, i) is only available in clauses of a function under verification")
 		}
-		sv, ok := e.callRet(x.Args[0].Name, int(x.Args[1].Int.Int64()), int(x.Args[2].Int.Int64()))
+		sv, ok := e.callRet(callee, int(x.Args[1].Int.Int64()), int(x.Args[2].Int.Int64()))
 		if !ok {
-			return SV{}, serr("ret(%s, %s, %s): no such call result recorded at this point", x.Args[0].Name, x.Args[1].Int, x.Args[2].Int)
+			return SV{}, serr("ret(%s, %s, %s): no such call result recorded at this point", callee, x.Args[1].Int, x.Args[2].Int)
 		}
 		return sv, nil
 	case "oldheap":
@@ -805,6 +811,12 @@ func (e *Env) evalCall(x *Expr) (SV, error) {
 			return SV{}, serr("implements: interface value and Go interface type expected in %s", x)
 		}
 		return SV{T: c.And(c.Not(c.Eq(a.T, c.Int(0))), c.UF("implements_"+sanitize(shortTypeName(gt)), SBool, c.UF("typeof", SInt, a.T)))}, nil
+	case "floatlit":
+		// floatlit("0"): the floating-point literal as the code's constant of the same exact value (uninterpreted sort Float)
+		if len(x.Args) != 1 || x.Args[0].Kind != "str" {
+			return SV{}, serr("floatlit takes one string literal in %s", x)
+		}
+		return SV{T: v.floatLit(x.Args[0].Name)}, nil
 	case "typetag":
 		// tag of a Go type given as a string literal ("*pkg/path.T", aliases allowed): typeof(box(x : T)) == typetag("T")
 		if len(x.Args) != 1 || x.Args[0].Kind != "str" {
@@ -1065,4 +1077,19 @@ func (v *Verifier) spliceOffArr(a, b, off, n *Term) *Term {
 			a.Sort.Name, a.Sort.Name, name, name))
 	}
 	return c.App(name, a.Sort, a, b, off, n)
+}
+
+// retCalleeName: the callee pattern of ret(Callee, n, i): an identifier, a dotted selector of identifiers or a string literal.
+func retCalleeName(x *Expr) (string, bool) {
+	switch x.Kind {
+	case "id", "str":
+		return x.Name, x.Name != ""
+	case "field":
+		if len(x.Args) == 1 {
+			if base, ok := retCalleeName(x.Args[0]); ok {
+				return base + "." + x.Name, true
+			}
+		}
+	}
+	return "", false
 }
